@@ -1,15 +1,16 @@
 #!/bin/sh
-# tools/try_seed.sh <seeded-dir> [tier]   — apply a seeded change to /repo, run the check of the property it
-# breaks, undo the change.  Prints DETECTED / MISSED.  (Seeded changes are never committed to /repo.)
+# tools/try_seed.sh <seeded-dir> [tier]   — apply a seeded change to a scratch worktree of /repo, run the check of
+# the property it breaks against that worktree (OQ_REPO), remove the worktree.  Prints DETECTED / MISSED.
+# (Equivalent to `git -C /repo apply …; ./check …; git -C /repo checkout -- .` but does not disturb /repo.)
 D="$(cd "$1" && pwd)"; TIER="${2:-quick}"
 PROP=$(python3 -c "import json,sys; print(json.load(open('$D/meta.json'))['property'])")
-cd /repo || exit 2
-if ! git diff --quiet; then echo "/repo has uncommitted changes"; exit 2; fi
-git apply "$D/patch.diff" || { echo "patch does not apply"; exit 2; }
+WT="/tmp/seedwt_$$"
+git -C /repo worktree add --detach "$WT" HEAD >/dev/null 2>&1 || { echo "cannot create worktree"; exit 2; }
+if ! git -C "$WT" apply "$D/patch.diff"; then echo "patch does not apply"; git -C /repo worktree remove --force "$WT"; exit 2; fi
 cd /verif
-./check "$PROP" --tier "$TIER" > "/tmp/try_seed_$$.log" 2>&1
+OQ_REPO="$WT" ./check "$PROP" --tier "$TIER" > "/tmp/try_seed_$$.log" 2>&1
 RC=$?
-git -C /repo checkout -- .
-grep -E "VIOLATION|KNOWN-FINDING|exit" "/tmp/try_seed_$$.log" | head -5
+git -C /repo worktree remove --force "$WT"; git -C /repo worktree prune
+grep -E "VIOLATION|exit" "/tmp/try_seed_$$.log" | head -4
 rm -f "/tmp/try_seed_$$.log"
 if [ "$RC" = "1" ]; then echo "DETECTED $D ($PROP, $TIER)"; else echo "MISSED $D ($PROP, $TIER) rc=$RC"; fi
